@@ -1,4 +1,5 @@
 """C11 — WOFF2 decoding: decoder constants equal the specification (tables read, not run)."""
+import re
 import os
 import sys
 
@@ -359,7 +360,8 @@ def t11_hmtx(run, fx):
 def t11_xmin(run, fx):
     rule = "T11-XMIN"
     run.rule(rule, "hmtx reconstruction (WOFF2 5.4: an omitted lsb is the glyph's xMin): for a glyph that is still raw bytes, xMin is read from "
-                   "the glyph header after numberOfContours - Woff2HmtxTable::x_min reads an i16 from the same cursor before it reads the BoundingBox")
+                   "the glyph header after numberOfContours - Woff2HmtxTable::x_min reads an i16 from the same cursor before it reads the BoundingBox; for a "
+                   "parsed glyph it is the stored bounding box - nothing that computes a box from points is reachable from x_min")
     b = fx.body("woff2::Woff2HmtxTable::x_min")
     if b is None:
         return run.anchor_missing(rule, "woff2::Woff2HmtxTable::x_min")
@@ -384,6 +386,18 @@ def t11_xmin(run, fx):
             run.fail(rule, "xmin:header", "x_min reads the BoundingBox without first consuming numberOfContours on the same cursor", b.loc(t))
     if n == 0:
         run.anchor_missing(rule, "BoundingBox read in x_min")
+    # a glyph that was already parsed: xMin is the bounding box the font stores for it (the transformed glyf stream may carry an explicit box
+    # that differs from the extent of the points), not one recomputed from the points
+    roots = fx.nodes_by_dp().get(b.dp, [])
+    if not roots:
+        return run.anchor_missing(rule, "instance-graph node of x_min")
+    seen = fx.reachable_nodes(roots)
+    recompute = sorted({fx.nodes[v]["path"] for v in seen if re.search(r"BoundingBox::from_points|::recalculate_bounding_box|::calculate_bounding_box", fx.nodes[v]["path"])})
+    if recompute:
+        run.fail(rule, "xmin:recomputed", "x_min reaches %s: for a parsed glyph the omitted lsb is taken from a bounding box recomputed from the points, not from the "
+                 "box stored in the (transformed) glyf table, which may be an explicit one" % recompute[0], "%s:%s" % (b.file, b.line))
+    else:
+        run.ok(rule, "x_min: no bounding-box computation reachable (%d functions reachable); a parsed glyph yields its stored box" % len(seen))
 
 
 def t11_lsb(run, fx):
